@@ -12,19 +12,36 @@
 (***************************************************************************)
 EXTENDS Integers, Sequences, FiniteSets, TLC, Json
 
-CONSTANTS MaxOrd, MaxHist
+CONSTANTS
+  \* @type: Int;
+  MaxOrd,
+  \* @type: Int;
+  MaxHist
 
-VARIABLES lo, hi,       \* min_order, max_order
-          rtol,         \* id of the relative tolerance (1: 1e-5, 2: 1e-10)
-          table,        \* <<a, b>>: the order range the cached roots/weights table was built for
-          outcome, hist
+VARIABLES
+  \* min_order, max_order
+  \* @type: Int;
+  lo,
+  \* @type: Int;
+  hi,
+  \* id of the relative tolerance (1: 1e-5, 2: 1e-10)
+  \* @type: Int;
+  rtol,
+  \* <<a, b>>: the order range the cached roots/weights table was built for
+  \* @type: <<Int, Int>>;
+  table,
+  \* @type: Str;
+  outcome,
+  \* @type: Seq({op: Str, v: Int, lo: Int, hi: Int});
+  hist
 vars == <<lo, hi, rtol, table, outcome, hist>>
 
 Orders == 1..MaxOrd
 Init == /\ lo \in Orders /\ hi \in Orders /\ lo <= hi
         /\ rtol = 1 /\ table = <<lo, hi>> /\ outcome = "ok"
-        /\ hist = <<[op |-> "init", lo |-> lo, hi |-> hi]>>
-Log(e) == hist' = Append(hist, e)
+        /\ hist = <<[op |-> "init", v |-> 0, lo |-> lo, hi |-> hi]>>
+\* @type: ({op: Str, v: Int}) => Bool;
+Log(e) == hist' = Append(hist, [op |-> e.op, v |-> e.v, lo |-> 0, hi |-> 0])
 
 Refuse(e) == outcome' = "ValueError" /\ UNCHANGED <<lo, hi, rtol, table>> /\ Log(e)
 
@@ -38,7 +55,7 @@ SetRtol(v) == IF v >= 1
               THEN rtol' = v /\ outcome' = "ok" /\ UNCHANGED <<lo, hi, table>> /\ Log([op |-> "relative_tolerance", v |-> v])
               ELSE Refuse([op |-> "relative_tolerance", v |-> v])
 \* integrate(): reads the table, changes nothing
-Integrate == outcome' = "ok" /\ UNCHANGED <<lo, hi, rtol, table>> /\ Log([op |-> "integrate"])
+Integrate == outcome' = "ok" /\ UNCHANGED <<lo, hi, rtol, table>> /\ Log([op |-> "integrate", v |-> 0])
 
 NextStep == \/ \E v \in 0..MaxOrd : SetMin(v) \/ SetMax(v)
             \/ \E v \in 0..2 : SetRtol(v)
@@ -51,6 +68,8 @@ TableCurrent == table = <<lo, hi>>
 RangeValid == 1 <= lo /\ lo <= hi
 \* degree up to which the first estimate, hence the result, is exact
 ExactDegree == 2 * lo - 1
+\* inductive (Apalache, spec/apalache/MC_Quadrature.tla): holds for setter sequences of any length
+IndInv == TableCurrent /\ RangeValid /\ hi <= MaxOrd /\ rtol \in 1..2 /\ outcome \in {"ok", "ValueError"}
 
 View == <<lo, hi, rtol, table, outcome>>
 Emit == PrintT(ToJson([h |-> hist', lo |-> lo', hi |-> hi', rtol |-> rtol', outcome |-> outcome', exact_degree |-> 2 * lo' - 1]))
